@@ -3,6 +3,43 @@
 
 use std::time::{Duration, Instant};
 
+/// One page shared between a worker and its forked children: byte 0 is set by a child once it
+/// has caught a panic of the code under test (so that a death *after* that point is told apart
+/// from the allocation-failure abort that ends a refused growth request).
+static SHARED: std::sync::atomic::AtomicPtr<u8> = std::sync::atomic::AtomicPtr::new(std::ptr::null_mut());
+
+fn shared_page() -> *mut u8 {
+    use std::sync::atomic::Ordering;
+    let p = SHARED.load(Ordering::Relaxed);
+    if !p.is_null() {
+        return p;
+    }
+    let m = unsafe { libc::mmap(std::ptr::null_mut(), 4096, libc::PROT_READ | libc::PROT_WRITE, libc::MAP_SHARED | libc::MAP_ANONYMOUS, -1, 0) };
+    if m == libc::MAP_FAILED {
+        crate::parent::harness_error("cannot map the shared flag page");
+    }
+    SHARED.store(m as *mut u8, Ordering::Relaxed);
+    m as *mut u8
+}
+
+/// Parent side, before forking: clear the flag.
+pub fn clear_panic_caught() {
+    unsafe { std::ptr::write_volatile(shared_page(), 0) };
+}
+
+/// Child side: a panic of the code under test has just been caught.
+pub fn mark_panic_caught() {
+    let p = SHARED.load(std::sync::atomic::Ordering::Relaxed);
+    if !p.is_null() {
+        unsafe { std::ptr::write_volatile(p, 1) };
+    }
+}
+
+/// Parent side, after the child is gone.
+pub fn panic_was_caught() -> bool {
+    unsafe { std::ptr::read_volatile(shared_page()) != 0 }
+}
+
 #[derive(Clone, Debug, PartialEq)]
 pub enum ChildEnd {
     /// child wrote this payload and exited normally
